@@ -140,8 +140,7 @@ def scenarios(tier):
         wins = [1, 2, 3, 8, 255]
         pk = [2, 3, 5, 9, 17, 40] if quick else [2, 3, 4, 5, 6, 7, 8, 9, 10, 16, 17, 25, 33, 40, 255]
         # (1) stack <-> stack, connection mode: windows on both sides, optional minimum DT interval
-        for npk in pk:
-            size = seg * npk - 2
+        for (npk, size) in [(n, seg * n - 2) for n in pk] + [(3, seg * 3), (5, seg * 5), (4, seg * 3 + 1)]:
             for wa in wins:
                 for wb in wins:
                     if quick and npk > 9 and (wa, wb) not in ((1, 1), (2, 8), (8, 2), (255, 3), (3, 255), (255, 255)):
@@ -200,6 +199,8 @@ def scenarios(tier):
                         items.append(({'dll': dll, 'send_cost': 0.0005, 'biv': biv, 'npk': npk, 'rlat_seq': [d1, d1 + gap]}, 0))
         # (3) stack <-> reference peer: RTS limits from a reference originator, grants / holds from a reference responder
         sizes = [seg * k - 3 for k in ([2, 3, 5, 9] if quick else [2, 3, 4, 5, 6, 9, 12, 17, 40])]
+        # ... and the residues at both ends: a last packet that is completely filled / carries one byte
+        sizes += [seg * k for k in ([3, 5] if quick else [2, 3, 4, 5, 9])] + [seg * k + 1 for k in ([2, 4] if quick else [2, 3, 4, 8])]
         for size in sizes:
             npk = (size + seg - 1) // seg
             for win in wins:
